@@ -187,6 +187,7 @@ def run_unit(V, srcname, flavours, tier, seed, prefix, own_prop, sanitizer_prop=
     stats = {}
     def job(fl):
         src = open(os.path.join(vlib.VERIF, 'units', srcname)).read()
+        if vlib.FLAVOURS[fl][2] == 'dev': src = src.replace('<hfsm2/machine.hpp>', '<hfsm2/machine_dev.hpp>')
         b, out = vlib.build_one(src, fl, name=srcname.split('.')[0])
         if not b: return (fl, None, 'build failed: ' + out[:800], '')
         rc_, so_, se_ = vlib.run_bin(b, [tier, str(seed)], timeout=1500, memcheck=fl.endswith('-vg'))
@@ -295,6 +296,9 @@ def shape_engine(prop, tier, seed, keep=False):
         # the instance flavours the shape harness cannot instantiate (no / pointer / value context), copies and moves with the source destroyed
         extra['context_less_pointer_and_value_context_instances'] = run_unit(V, 'c10_ctxless.cpp', ['u-clang-asan', 'gcc-vg'] + (['u-gcc-O2'] if tier == 'thorough' else []), tier, seed, 'ctxless|', 'C10', sanitizer_prop='C11')
         extra['copied_and_moved_instances_with_pending_tasks'] = run_unit(V, 'c14_copy_tasks.cpp', ['u-clang-asan'], tier, seed, 'copied-tasks|', 'C14', sanitizer_prop='C11')
+    if prop == 'C16':
+        # plain states overriding sparse subsets of the callbacks (exactly one of enter / reenter, ...): logger's method records against the callbacks really run
+        extra['states_overriding_sparse_subsets_of_methods'] = run_unit(V, 'c16_sparse.cpp', ['u-gcc', 'u-clang-asan', 'u-gcc-vlog', 'u-clang-dev'] + (['u-gcc-O2', 'u-clang-O1', 'u-clang-vlog'] if tier == 'thorough' else []), tier, seed, 'sparse-overrides|', 'C16', sanitizer_prop='C11')
     if prop == 'C14':
         extra['copied_and_moved_instances_with_pending_tasks'] = run_unit(V, 'c14_copy_tasks.cpp', ['u-gcc', 'u-clang-asan'] + (['u-gcc-O2', 'u-clang-O1'] if tier == 'thorough' else []), tier, seed, 'copied-tasks|', 'C14', sanitizer_prop='C11')
     return adjudicate(V, prop, results, shapeset, flavours, extra, ntacc, cfgacc)
